@@ -126,6 +126,15 @@ BUILT["C35"] = ("E3", "exploration", E3S,
 BUILT["C36"] = ("E3", "exploration", E3S,
   "AllowAll / Whitelist / MaxCount(AllowAll) / MaxCount(Whitelist) / Combined(Whitelist,Callback) filters with drawn limits: tracked topics always within the filter's allowed set and max_subscribed_topics; each SUBSCRIBE/UNSUBSCRIBE request applied exactly as the reference filter (rejected requests change nothing); GRAFT-implied subscriptions obey the filter",
   E3_NOTE, "5/C36")
+BUILT["C30"] = ("E3", "exploration", "seeded generation + mutation of wire frames (independent protobuf encoder, three key types, post-signing mutations) decoded by the real codec in each validation mode; independent signature verifier as oracle",
+  "Whatever Strict/Permissive/Anonymous surface as valid satisfies the mode's rule; untouched signed messages are accepted in Strict; mutated signed messages are reported invalid",
+  "the decoding step is a function of the frame: the seeded search explores inputs (field presence, key kinds, mutations), there is no schedule or clock in this property; kept under the simulator for uniform replay/evidence", "5/C30")
+BUILT["C33"] = ("E3", "exploration", "deterministic simulation over the virtual clock: the real DuplicateCache and MessageCache driven with seeded operation/time sequences against a reference model",
+  "insert/contains/time jumps (ttl boundaries) resp. put/validate/shift/gossip/IWANT/remove sequences: seen exactly while now < first insertion + ttl; gossip ids and IWANT service confined to the documented windows; per-peer IWANT counts exact",
+  "cache objects driven through the cfg(libp2p_verif) facade wrappers", "5/C33")
+BUILT["C34"] = ("E3", "exploration", "seeded ConfigBuilder setter sequences; accepted configs checked against the documented inequalities and then run in a real Behaviour (peers, GRAFTs, disconnects, heartbeats on the virtual clock), panic = violation",
+  "Default and per-topic mesh parameters 0..13, transmit sizes around 100, history windows 0..6; 0..24 peers; 2..8 heartbeats",
+  E3_NOTE + "; one known finding (per-topic parameters without per-topic max_transmit_size are not validated; an existing unit test depends on it)", "5/C34")
 NOT_YET = {}
 
 def main():
